@@ -113,7 +113,7 @@ func newPackage(program *loader.Program, pkgInfo *loader.PackageInfo, plugins []
 	typesmaps := make(map[string]TypesMap, len(plugins))
 	deps := make(map[string]Dependency, len(plugins))
 	for _, plugin := range plugins {
-		tm := newTypesMap(qual, plugin.GetPrefix(), reserved, autoname, dedup)
+		tm := newTypesMap(pkgInfo.Pkg, qual, plugin.GetPrefix(), reserved, autoname, dedup)
 		deps[plugin.Name()] = tm
 		typesmaps[plugin.Name()] = tm
 	}
